@@ -123,13 +123,13 @@ Proof.
   rewrite IH; [reflexivity|]. intros p' c' Hin. apply H. right. exact Hin.
 Qed.
 
-Lemma children_of_In rels p c : In c (children_of rels p) <-> exists l, In (mkRel p c l) rels.
+Lemma children_of_In rels p c : In c (children_of rels p) <-> In (mkRel p c 1) rels.
 Proof.
   unfold children_of. rewrite in_map_iff. split.
-  - intros [x [E Hx]]. apply filter_In in Hx as [Hx Hp]. apply str_eqb_eq in Hp.
-    destruct x as [xp xc xl]. cbn in *. subst. exists xl. exact Hx.
-  - intros [l Hl]. exists (mkRel p c l). split; [reflexivity|]. apply filter_In. split; [exact Hl|].
-    cbn. apply str_eqb_refl.
+  - intros [x [E Hx]]. apply filter_In in Hx as [Hx Hp]. apply andb_prop in Hp as [Hp Hl]. apply str_eqb_eq in Hp.
+    apply Z.eqb_eq in Hl. destruct x as [xp xc xl]. cbn in *. subst. exact Hx.
+  - intros Hl. exists (mkRel p c 1). split; [reflexivity|]. apply filter_In. split; [exact Hl|].
+    cbn. rewrite str_eqb_refl. reflexivity.
 Qed.
 
 Lemma grand_pairs_In st x z : In (x, z) (grand_pairs st) <->
@@ -259,7 +259,7 @@ Proof.
   intros p c Hin. apply grand_pairs_In in Hin as [[r [Hr Er]] [y [Hy Hz]]]. cbn [s_rows s_rels] in *.
   apply in_map_iff in Hr as [f [Ef' Hf]]. subst r. cbn in Er. subst p.
   split; [apply Hall; exact Hf|].
-  apply children_of_In in Hz as [l Hl]. apply add_rels_In in Hl as [[]|Hl].
+  apply children_of_In in Hz. rename Hz into Hl. apply add_rels_In in Hl as [[]|Hl].
   unfold rels1 in Hl. apply in_flat_map in Hl as [g [Hg Hl]]. apply in_map_iff in Hl as [q [E Hq]].
   inversion E; subst. apply Hall. exact Hg.
 Qed.
@@ -310,12 +310,12 @@ Section Characterise.
     - intros [[A _]|A]; [discriminate|]. apply in_map_iff in A as [[x' z'] [E Hin]]. cbn in E. inversion E; subst.
       unfold rels2 in Hin. apply grand_pairs_In in Hin as [[r [Hr Er]] [y [Hy Hz]]]. cbn [s_rows s_rels] in *.
       apply in_map_iff in Hr as [f [Ef Hf]]. subst r. cbn in Er. split; [exists f; auto|].
-      apply children_of_In in Hy as [l1 Hy]. apply children_of_In in Hz as [l2 Hz].
+      apply children_of_In in Hy. apply children_of_In in Hz.
       apply in_r1 in Hy as [_ Hy]. apply in_r1 in Hz as [_ Hz]. exists y. auto.
     - intros [[f [Hf Ef]] [y [Hy Hz]]]. right. apply in_map_iff. exists (x, z). split; [reflexivity|].
       unfold rels2. apply grand_pairs_In. cbn [s_rows s_rels]. split.
       + exists (stored f). split; [apply in_map; exact Hf|]. cbn. exact Ef.
-      + exists y. split; apply children_of_In; exists 1; apply in_r1; auto.
+      + exists y. split; apply children_of_In; apply in_r1; auto.
   Qed.
 
   Lemma l_levels_only x : In x (s_rels st) -> rel_level x = 1 \/ rel_level x = 2.
@@ -357,4 +357,29 @@ Proof.
       apply (l_level2 call feats st D I). split.
       * exists f. split; [eapply Permutation_in; [apply Permutation_sym|]; eassumption|exact Ef].
       * exists y. split; apply L1; assumption.
+Qed.
+
+(* _update_relations on ANY stored state (first import or a later update): it adds, at level 2, exactly the
+   compositions of two level-1 rows that start at a stored feature - whatever level-2 rows are already there *)
+Theorem l_relations_step st :
+  (forall r, In r (s_rows st) -> id_clean (r_id r) = true) ->
+  (forall x, In x (s_rels st) -> id_clean (rel_child x) = true) ->
+  exists st', update_relations_gff st = Ok st' /\ s_rows st' = s_rows st /\ s_dups st' = s_dups st /\ s_auto st' = s_auto st /\
+    forall x, In x (s_rels st') <->
+      In x (s_rels st) \/
+      (rel_level x = 2 /\ (exists r, In r (s_rows st) /\ r_id r = rel_parent x) /\
+       exists y, In (mkRel (rel_parent x) y 1) (s_rels st) /\ In (mkRel y (rel_child x) 1) (s_rels st)).
+Proof.
+  intros Hrows Hrels. unfold update_relations_gff. rewrite read_pairs_clean.
+  - eexists. split; [reflexivity|]. cbn [s_rows s_rels s_dups s_auto]. repeat split; try reflexivity.
+    + intros H. apply add_rels_In in H as [H|H]; [left; exact H|]. right.
+      apply in_map_iff in H as [[p c] [E Hin]]. subst x. cbn [rel_level rel_parent rel_child fst snd].
+      apply grand_pairs_In in Hin as [Hr [y [Hy Hz]]]. apply children_of_In in Hy. apply children_of_In in Hz.
+      split; [reflexivity|]. split; [exact Hr|]. exists y. split; assumption.
+    + intros [H|[Hl [Hr [y [Hy Hz]]]]]; apply add_rels_In; [left; exact H|]. right.
+      apply in_map_iff. exists (rel_parent x, rel_child x). split.
+      * destruct x as [p c l]. cbn in *. subst l. reflexivity.
+      * apply grand_pairs_In. split; [exact Hr|]. exists y. split; apply children_of_In; assumption.
+  - intros p c Hin. apply grand_pairs_In in Hin as [[r [Hr Er]] [y [Hy Hz]]]. subst p. split; [apply Hrows; exact Hr|].
+    apply children_of_In in Hz. exact (Hrels _ Hz).
 Qed.
